@@ -26,12 +26,46 @@
      an advancing clock - all must equal the first run; all of them draw on the calling thread only (their workers never touch the word),
      so the caller's recorded stream must be the seeded stream.  Also: y-scrambling with all RNG events of all threads, bit-identity across
      thread counts (bootstrap: dividing counts; LOO; k-fold), EPLS as CV learner for thread counts 1..8 (EXTRA).
+
+Round 3 (input / history classes, clause audit, ThreadSanitizer block)
+
+Clause table - every clause of the statement, the operator / trace action that decides it, the event that carries it:
+  clause of the statement                                   decided by (TLA+)                                           carried by
+  1 same inputs -> same results, bit-identical between      TraceRng!TResult: HashOf(Ev) = first[nth] (repeated run),   Seq / Result{h,nth,rep} of modes counts, classes, hist, direct,
+    repeated runs                                           = ref                                                       dsched, yscr, eplscv, tsan (each call runs at least twice)
+  2 equal to rounding across thread counts                  TraceRng!TResult / Rounding / TolRound(m) (property layer;   Result{nth,dq}: dq = largest relative difference to the 1-thread
+                                                            implementation layer insists on bit-identity, which          reference in 1e-12 units (sched, counts, classes; processor counts
+                                                            CvOrch!BootSameAsSequential explains)                        of PCARankValidation)
+  3 regardless of the number of worker threads requested    CvOrch!BootSameAsSequential / BootExtraOtherwise /           thread-count sweeps 1..8 (bootstrap: iteration counts 4,5,6,7,8,10,12,14,16
+    (bootstrap: counts dividing the iteration count)        GuardExactlyOnce; TraceRng!TCreate / TCalled (seeds of a     -> every count 1..8), Create{th,it,seed} / Called{iters,nth} from hook H5
+                                                            call = base .. base+iters-1, implementation layer)
+  4 regardless of how the OS interleaves the threads        Rng!StreamIsolation, EqualsSequential over ALL interleavings schedule words of Rng.tla forced on the real threads (hook-H1 gate):
+                                                            (2x2, 3x1, 3x2, 4x1, 4x2, 5x1, reseed, forkjoin, foreign);   Seed / Wrote / Read of every thread, Result vs Seq
+                                                            TraceRng!TSeed / TWrote / TRead on the recorded values
+  5 regardless of what other library calls run concurrently Rng shape "foreign" (StreamIsolation, ForeignTwin: equal    disturber thread seeding with the first worker's seed: forced next to the CV
+                                                            seeds on two threads stay independent)                       workers (plan dist:*), next to every directly called routine (dsched),
+                                                                                                                         free-running in classes / tsan blocks; its Seed / Wrote / Read events
+  6 the seeded stream of one worker is never perturbed      TraceRng!TRead (has[w] /\ v = last[w]), TClock (NoClock),    Read{w,v}, Wrote{w,v}, Clock{w}, Result{libc} (interposed rand/srand/random/
+                                                            TResult (libc = 0)                                           drand48/lrand48/srand48)
+  7 no two threads access shared mutable state without      RngState!ThreadPrivate / RaceCompatible, TraceRng!TRace,     Race{var,...}: ThreadSanitizer reports of the tsan build (hooks off), attributed
+    synchronisation                                         Rng!WordPrivate                                              to a state class of RngState.tla
+  8 a run with N threads equals the sequential run          Rng!EqualsSequential; TraceRng!TResult against the           Seq = 1-thread run, Result{nth = N}
+                                                            1-thread reference
+
+Input / history classes (INPUT-CLASSES.md), measured before -> after (coverage.classes):
+  K1 tall only, ny 1/2, nlv 1/2 -> + wide (n < p), single column, ny = 3, nlv = rank, residual output        K6 threads 1,2,3,4,6,8, nproc 1, nobody else drawing -> + threads 5, 7, threads > items,
+  K2 none deliberate -> LOO n = 16/15 (2*8, 2*8-1), k-fold 4/8/9 groups, n = 32/33                              inner processors 2/3/5 (PCARankValidation is the only drawing routine that reaches an MT_* kernel;
+  K3 none -> offset 1e6; K4 none -> scale 1e6 / 1e-6; K5 none -> tied 0.1*k columns, 1e-3*k responses           PLS/MLR/LDA workers reach none on this tree), forced 3 workers x 2 draws, 4 workers, disturber
+  K7 repeated calls with fresh outputs, fresh thread -> + reused outputs (other shape / other data),           K8 none -> duplicate rows, constant column (PLS)
+     another fit in between, NEW DATA IN THE SAME MATRICES, refit at freed addresses (reuse measured)          K10 LDA labels {0,1} sorted -> 3 classes unsorted, 1-based labels
+  K9 excluded: the statement does not speak about missing values.  KFoldCV with LDA excluded: the routine has no LDA branch (joins threads it never created; C05's finding).
 """
 import os, random, shutil
 from concurrent.futures import ThreadPoolExecutor
 from vf import build, tlc, trace
 from vf import run as hrun
 from vf.core import InfraError
+from checks import c06_race
 
 LEVEL = "model_checking"
 READY = True
@@ -39,17 +73,31 @@ TECHNIQUE = ("TLC model checking of Rng.tla (all interleavings of seed/read/writ
              "re-seeding EPLS workers, fork/join caller, unseeded workers; per-thread vs global word) + every TLC-generated schedule word (plus sampled long words) "
              "forced onto the real CV worker threads through the hook-H1 gate; recorded seeds, word values, wall-clock reads and result hashes of the CV schemes, "
              "y-scrambling and every other routine that draws (EPLS, KMeans/KMeans++, KMeans/PCA/UPLS random-group validation, selection operators, splitters, "
-             "random matrix fill) validated by TLC (TraceRng.tla, exact 32-bit generator arithmetic)")
+             "random matrix fill) validated by TLC (TraceRng.tla, exact 32-bit generator arithmetic); round 3: a foreign caller (disturber thread) forced next to the CV workers and next to "
+             "every directly called routine, 3 workers x 2 draws and 4 workers, stratified input/history classes K1..K10 (thread counts 1..8 incl. 5 and 7, inner processor counts, reused outputs, "
+             "new data in the same matrices, offsets, magnitudes, ties, label alphabets), 'equal to rounding across thread counts' with a tolerance TolRound(m) defined in the specification, "
+             "interposed libc generators, hook-H5 seed events, and a ThreadSanitizer build of the validation routines whose race reports are attributed to the state classes of RngState.tla and judged by TLC")
 LEVEL_TEXT = ("All interleavings of the generator steps are explored in the model for 2 workers x 2 draws, 3 workers x 1 draw, re-seeding workers (2 and 3) and the fork/join "
               "caller; every complete schedule word TLC generates is then forced deterministically onto the real threads, so a stream shared between workers is exposed on "
               "the first schedule that lets one worker seed between another's seed and first draw - not 1 run in 20. TLC checks stream isolation on the real word values, "
               "that no thread draws from a word it did not seed (the library would take the wall clock, which the harness controls), and bit-identity of the result with "
-              "the sequential run; y-scrambling, thread-count sweeps (1..8) and all 18 directly called drawing routines are validated by the same trace specification.")
+              "the sequential run; y-scrambling, thread-count sweeps (1..8) and all 18 directly called drawing routines are validated by the same trace specification. Round 3 adds: all "
+              "interleavings for 3 workers x 2 draws, 4 x 1 (4 x 2 and 5 x 1 in the thorough tier) and for a foreign caller that uses the generator next to the workers (equal seeds on two threads stay "
+              "independent); the words of these models are forced onto the real CV with a disturber thread and onto every directly called routine; every clause of the statement has a deciding "
+              "operator (clause table in the module docstring), including 'no two threads access shared mutable state without synchronisation': ThreadSanitizer reports on the real routines are "
+              "bound to the thread-private state set of RngState.tla (a race on the generator word, a worker's slot, a worker's own memory, the caller's accumulators or the inputs is a violation; "
+              "races on state the model does not speak about are EXTRA-FINDINGs).")
 LEVEL_NOTE = ("Trusts TLC and the H1 gate (points before-read / between read and write / after-write of the generator word) and the interposed time(). Only shared state "
               "observed by H1 is decided; unsynchronised access to other memory is outside this technique (no happens-before detector is used). Schedules are forced for "
               "the first Q generator steps of 2-3 workers (Q = 3..82); later steps run free (still recorded and validated). EPLS used as the learner inside the CV schemes "
               "is outside the property's quantifier (PLS, MLR, LDA): deviations there are EXTRA-FINDINGs, not verdicts. ICA (randDouble without seeding) is not driven: "
-              "ica.c is debugging code (hard-wired data, sleep(2)).")
+              "ica.c is debugging code (hard-wired data, sleep(2)). Round 3: the ThreadSanitizer block is a sampled happens-before detector (schedules as they occur on 2-4 worker threads, 1-2 inner "
+              "processors, with and without a disturber), its attribution of a report to a state class is plumbing (function names on the access / allocation stacks), the judgement is TLC's. "
+              "Classes excluded because the statement does not cover them: K9 missing-value codes; KFoldCV with LDA (no such branch in the routine). K3/K4/K5/K8/K10 data classes are inside the "
+              "quantifier ('same inputs') but no determinism defect is specific to them: they are emitted as a stratified handful. A crash of a routine on a history class (KFoldCV into an output "
+              "of another shape frees the caller's matrix) is memory safety, reported as EXTRA-FINDING. PLS/MLR/LDA workers reach no MT_* kernel on this tree: inner processor counts > 1 only "
+              "matter for PCARankValidation. Results across thread (and processor) counts are accepted when equal to rounding (TolRound(m) = (2 + m)e-12 relative, m merged terms); the code "
+              "is bit-identical today, a difference within rounding is SPEC-DRIFT, not a violation.")
 
 W = max(1, int(os.environ.get("VERIF_WORKERS", "8")))
 ROUTINES = ["EPLS-bagging", "EPLS-subspace", "EPLS-bagging-subspace", "KMeans-random", "KMeans-pp", "KMeansppCenters", "KMeansRandomGroupsCV-random",
@@ -70,6 +118,10 @@ def _sig(ev, block):
     mode, algo = run.get("mode", "?"), run.get("algo", "?")
     m0 = mode.split(":")[0]
     tag = mode if m0 == "eplscv" else m0 if m0 not in ("direct", "unseeded") else "%s:%s" % (m0, algo)
+    if m0 == "tsan" and mode != "tsan:direct":
+        tag = "tsan:cv"
+    elif mode == "tsan:direct":
+        tag = "tsan:direct:%s" % algo
     e = ev.get("e")
     if e == "Crash":
         return "RNG:crash:%s:%s:rc%s" % (ev.get("mode"), ev.get("algo"), ev.get("rc")), "run died or hung: %s" % ev
@@ -79,6 +131,14 @@ def _sig(ev, block):
     if e == "Clock":
         return "RNG:clock:%s" % tag, ("thread %s took the wall clock as generator state (draw on a word it never seeded, or a seed taken from the clock): the result is not a "
                                        "function of the inputs (%s, %s)" % (ev.get("w"), mode, algo))
+    if e == "Race":
+        return "RNG:race:%s:%s" % (ev.get("var"), ev.get("name") or ev.get("f1")), (
+            "ThreadSanitizer reports a %s on state the model says is never accessed by two threads without synchronisation: %s (%s '%s'; accesses in %s [%s] and %s [%s]%s) in %s %s, %s threads"
+            % (ev.get("kind"), ev.get("var"), ev.get("loc"), ev.get("name"), ev.get("f1"), ev.get("t1"), ev.get("f2"), ev.get("t2"),
+               "; allocated in %s" % ev.get("alloc") if ev.get("alloc") else "", mode, algo, run.get("nth")))
+    if e == "Result" and ev.get("libc", 0) > 0:
+        return "RNG:libc-generator:%s" % tag, ("the library drew from libc's process-wide generator (rand/srand/random/drand48: %s calls) during %s %s - state shared by every thread of the process, outside "
+                                              "the seeded stream" % (ev.get("libc"), mode, algo))
     if e == "Result":
         return "RNG:result-differs:%s" % tag, "result differs from the sequential/reference run (%s, %s, schedule %s, threads %s, repetition %s, fresh thread %s)" % (
             mode, algo, run.get("word"), ev.get("nth", run.get("nw")), ev.get("rep"), ev.get("fresh"))
@@ -111,7 +171,23 @@ def run(ctx):
                ("MC_Rng_reseed_TRUE_2.cfg", "mc_rng_reseed_perthread_2x1", None), ("MC_Rng_reseed_TRUE_3.cfg", "mc_rng_reseed_perthread_3x1", None),
                ("MC_Rng_forkjoin_TRUE.cfg", "mc_rng_forkjoin_perthread_1+2x2", None), ("MC_Rng_FALSE_2.cfg", "mc_rng_global_2x2", "StreamIsolation"),
                ("MC_Rng_reseed_FALSE_2.cfg", "mc_rng_reseed_global_2x1", "StreamIsolation"), ("MC_Rng_forkjoin_FALSE.cfg", "mc_rng_forkjoin_global", "StreamIsolation"),
-               ("MC_Rng_unseeded.cfg", "mc_rng_unseeded", "NoClock")]
+               ("MC_Rng_unseeded.cfg", "mc_rng_unseeded", "NoClock"),
+               ("MC_Rng_TRUE_3x2.cfg", "mc_rng_perthread_3x2", None), ("MC_Rng_TRUE_4.cfg", "mc_rng_perthread_4x1", None),
+               ("MC_Rng_foreign_TRUE.cfg", "mc_rng_foreign_perthread_2+1x1", None), ("MC_Rng_foreign_FALSE.cfg", "mc_rng_foreign_global", "StreamIsolation"),
+               ("MC_Rng_FALSE_4.cfg", "mc_rng_global_4x1", "StreamIsolation")]
+    if not q:
+        mc_jobs += [("MC_Rng_TRUE_4x2.cfg", "mc_rng_perthread_4x2", None), ("MC_Rng_TRUE_5.cfg", "mc_rng_perthread_5x1", None),
+                    ("MC_Rng_foreign_TRUE_2x2.cfg", "mc_rng_foreign_perthread_2+1x2", None)]
+    # the ThreadSanitizer build and its cases run next to the model checking
+    tsan_rd = tlc.rundir()
+    # case index -> learner x scheme (15) x thread count 2..4 (x15) x inner processors 1..2 (x45) x disturber (x90); the quick tier takes one stratified case per learner x scheme
+    tsan_cases = ([("selftest", 0, 0)] + [("cv", i, ctx.seed) for i in ([i + 15 * (i % 3) + 45 * ((i // 3) % 2) + 90 * ((i // 5) % 2) for i in range(15)] if q else range(180))]
+                  + [("direct", i, ctx.seed) for i in ([i + 7 * (i % 3) + 21 * (i % 2) for i in range(7)] if q else range(42))])
+
+    def tsan_job():
+        exe_t = c06_race.build_tsan()
+        return c06_race.run_cases(exe_t, tsan_rd, tsan_cases, timeout=600, workers=2 if q else max(2, min(W, 6)))
+    tsan_fut = pool.submit(tsan_job)
     mc_fut = [pool.submit(tlc.run, "Rng", cfg, timeout=900, workers=tw) for cfg, label, expect in mc_jobs]
     orch_fut = pool.submit(tlc.run, "CvOrch", "MC_CvOrch_boot.cfg", timeout=600, workers=tw)
 
@@ -130,11 +206,12 @@ def run(ctx):
         return r
     # (GEN) runs are started now as well; their results are consumed below
     gen_specs = [("GEN_Rng_2_1.cfg", None), ("GEN_Rng_2_2.cfg", None), ("GEN_Rng_3_1.cfg", None), ("GEN_Rng_reseed_2_1.cfg", None),
-                 ("GEN_Rng_sim_2.cfg", 12 if q else 400), ("GEN_Rng_sim_3.cfg", 6 if q else 250)]
+                 ("GEN_Rng_sim_2.cfg", 12 if q else 400), ("GEN_Rng_sim_3.cfg", 6 if q else 250),
+                 ("GEN_Rng_foreign_2_1.cfg", None), ("GEN_Rng_3_2.cfg", 14 if q else 4000), ("GEN_Rng_4_1.cfg", 10 if q else 2000)]
     gen_fut = {}
     for cfg, sim in gen_specs:
         if sim:
-            gen_fut[cfg] = pool.submit(tlc.run, "Rng", cfg, timeout=900, coverage=False, workers=1, simulate="num=%d" % sim, depth=400, seed=ctx.seed + 11)
+            gen_fut[cfg] = pool.submit(tlc.run, "Rng", cfg, timeout=900, coverage=False, workers=1, simulate="num=%d" % sim, depth=400, seed=ctx.seed + 11 + len(gen_fut))
         else:
             gen_fut[cfg] = pool.submit(tlc.run, "Rng", cfg, timeout=900, coverage=False, workers=tw)
     for (cfg, label, expect), f in zip(mc_jobs, mc_fut):
@@ -151,7 +228,8 @@ def run(ctx):
 
     def gen(cfg, label, take, sim=None):
         r = gen_fut[cfg].result()
-        ctx.add_tlc(r, label)
+        if label:
+            ctx.add_tlc(r, label)
         if any(not e["isolated"] for e in r.emits):
             raise InfraError("%s: the per-thread model emitted a non-isolated behaviour" % cfg)
         words = sorted(set(tuple(e["sched"]) for e in r.emits))
@@ -163,7 +241,7 @@ def run(ctx):
             words = words[:take]
         return words, total
     plans = []      # (label, nw, k, eplsset, words, total, sampled)
-    for nw, k, take in ([(2, 1, None), (2, 2, 40), (3, 1, 40)] if q else [(2, 1, None), (2, 2, None), (3, 1, 600)]):
+    for nw, k, take in ([(2, 1, None), (2, 2, 40), (3, 1, 40)] if q else [(2, 1, None), (2, 2, None), (3, 1, None)]):
         words, total = gen("GEN_Rng_%d_%d.cfg" % (nw, k), "gen_sched_%dx%d" % (nw, k), take)
         plans.append(("%dx%d" % (nw, k), nw, k, 0, words, total, False))
         if (nw, k) == (2, 1):
@@ -174,6 +252,19 @@ def run(ctx):
     plans.append(("epls:sim2x20", 2, 20, 1, words, total, True))
     words, total = gen("GEN_Rng_sim_3.cfg", "gen_sched_sim_3x10", None, sim=6 if q else 250)
     plans.append(("epls:sim3x10", 3, 10, 1, words, total, True))
+    # round 3: three workers x two draws and four workers (sampled by simulation), a foreign caller (disturber) next to the CV workers
+    words, total = gen("GEN_Rng_3_2.cfg", "gen_sched_sim_3x2", 12 if q else 2400, sim=True)
+    plans.append(("3x2", 3, 2, 0, words, total, True))
+    words, total = gen("GEN_Rng_4_1.cfg", "gen_sched_sim_4x1", 8 if q else 1200, sim=True)
+    plans.append(("4x1", 4, 1, 0, words, total, True))
+    words, total = gen("GEN_Rng_foreign_2_1.cfg", "gen_sched_foreign_2+1x1", 30 if q else None)
+    plans.append(("dist:2+1x1", 3, 1, 2, words, total, False))
+    words, total22 = gen("GEN_Rng_2_2.cfg", None, None)
+    dwords = list(words)
+    rnd.shuffle(dwords)
+    plans.append(("dist:1+1x2", 2, 2, 2, dwords[:12] if q else dwords, total22, False))
+    rnd.shuffle(dwords)
+    dsched_words = dwords[:2 * len(ROUTINES)] if q else dwords
     lib = build.build_lib("plain")
     exe = build.build_harness("c06", ["c06_drv.c"], lib)
     rd = tlc.rundir()
@@ -189,6 +280,17 @@ def run(ctx):
             jobs.append([os.path.join(rd, "d%d.ndjson" % i), "direct", ctx.seed + 20 + i, nr, i * nr])
         for i in range(1 if q else 8):
             jobs.append([os.path.join(rd, "e%d.ndjson" % i), "eplscv", ctx.seed + 40 + i, 9 if q else 18])
+        for i in range(3 if q else 30):       # the class table, 7 entries per job (thorough: 10 rounds over the table with other data and sizes)
+            jobs.append([os.path.join(rd, "c%d.ndjson" % i), "classes", ctx.seed + 60 + i, 7, 7 * i])
+        for i in range(1 if q else 8):
+            jobs.append([os.path.join(rd, "h%d.ndjson" % i), "hist", ctx.seed + 80 + i, 9 if q else 18])
+        dchunk = max(1, (len(dsched_words) + 3) // 4)
+        for ci in range(0, len(dsched_words), dchunk):
+            sf = os.path.join(rd, "ds_%d.txt" % ci)
+            with open(sf, "w") as f:
+                for w in dsched_words[ci:ci + dchunk]:
+                    f.write(" ".join(map(str, w)) + "\n")
+            jobs.append([os.path.join(rd, "ds_%d.ndjson" % ci), "dsched", ctx.seed + 90 + ci, sf, 2, ci])
         for label, nw, k, eplsset, words, total, sampled in plans:
             chunk = max(1, (len(words) + 5) // 6)
             for ci in range(0, len(words), chunk):
@@ -213,16 +315,32 @@ def run(ctx):
             raise InfraError("no Read events: hook H1 is not firing (hooks removed or guard off)")
         # routines that cannot be driven at all on this tree (crash on every input): outside the verdict, reported once
         for e in events:
-            if e["e"] == "Broken":
+            if e["e"] == "Broken" and e["algo"].startswith("KFoldCV"):
+                ctx.extra("CV:kfold:reused-output-freed", "KFoldCV handed a predicted_y matrix that already has ANOTHER shape frees it behind the caller's back (MatrixCopy(y_predicted, &predicted_y) "
+                          "re-allocates through the address of the PARAMETER, modelvalidation.c:1207; LeaveOneOut and BootstrapRandomGroupsCV resize first): the caller's matrix is a dangling "
+                          "pointer afterwards (child status %s; heap-use-after-free under ASan). Memory safety, outside the statement of C06; candidate repair: fixes/C05-kfoldcv-sized-output.diff (found independently by the C05 check; verified here: with it the probe returns the hash of a fresh output). "
+                          "The check hands KFoldCV outputs of the right shape holding other data instead" % e["rc"])
+            elif e["e"] == "Broken":
                 ctx.extra("RNG:broken:%s" % e["algo"], "%s dies on every input (child status %s; with the random-groups validation it hands r2x = NULL to UPLSRandomGroupsCV, which "
                           "dereferences it, upls.c:1448) - the drawing path of this routine cannot be driven; the leave-one-out path (which only seeds) is checked" % (e["algo"], e["rc"]))
         events = [e for e in events if e["e"] != "Broken"]
         blocks = tlc.split_blocks(events)
+        tsan_blocks, tsan_reports = tsan_fut.result()
+        if not any(e["e"] == "Race" and e.get("name") == "racy_cell" for b in tsan_blocks for e in b):
+            raise InfraError("ThreadSanitizer positive control: the deliberate race in the harness was not reported (TSan build not effective)")
+        if sum(1 for b in tsan_blocks if any(e["e"] == "Result" for e in b)) < len(tsan_cases) - 2:
+            raise InfraError("ThreadSanitizer block: only %d of %d cases completed" % (sum(1 for b in tsan_blocks if any(e["e"] == "Result" for e in b)), len(tsan_cases)))
+        blocks += tsan_blocks
+        ctx.cov["tsan"] = dict(cases=len(tsan_cases), reports=tsan_reports, races_by_class={})
+        for b in tsan_blocks:
+            for e in b:
+                if e["e"] == "Race":
+                    ctx.cov["tsan"]["races_by_class"][e["var"]] = ctx.cov["tsan"]["races_by_class"].get(e["var"], 0) + 1
         main_blocks, extra_blocks = [], []
         for b in blocks:
             run_ = _run_info(b)
             crash = [e for e in b if e["e"] == "Crash"]
-            if crash and (crash[0].get("mode") in ("direct", "unseeded", "eplscv") or _is_extra_block(run_)):
+            if crash and (crash[0].get("mode") in ("direct", "unseeded", "eplscv", "dsched", "tsan", "classes", "hist") or _is_extra_block(run_)):
                 # a routine that dies or hangs on an input is not a determinism verdict (other properties own that): report, leave out
                 ctx.extra("RNG:crash:%s:%s" % (crash[0].get("mode"), crash[0].get("algo")), "run died or hung (status %s) and is left out of the verdict: %s" % (crash[0].get("rc"), run_ or crash[0]))
                 continue
@@ -245,19 +363,58 @@ def run(ctx):
                     d["result"] += 1
                 elif e["e"] == "Seq" and e.get("num", 1) > 0 and 2 * e.get("fin", 1) < e.get("num", 1):
                     d["nonfinite"] += 1
+        vac = []      # vacuity findings are raised after the trace validation: a change of the library that silences a path must surface as its verdict (if it has one), not as an infrastructure failure
         for rt in ROUTINES:
             d = per.get(("direct", rt))
             if not d or d["result"] == 0 or (d["seed"] == 0 and d["read"] == 0):      # what the events say is for TLC to judge; here only: were there any
-                raise InfraError("direct routine %s produced no recorded run (blocks/seeds/reads/results: %s)" % (rt, d))
+                vac.append("direct routine %s produced no recorded run (blocks/seeds/reads/results: %s)" % (rt, d))
             if rt.startswith("MatrixInitRandom") and d["clock"] == 0:
-                raise InfraError("no Clock event for %s: the time() interposer is not in effect" % rt)
+                vac.append("no Clock event for %s: the time() interposer is not in effect" % rt)
             if d["nonfinite"] * 2 > d["blocks"]:
-                raise InfraError("direct routine %s: most reference results are not finite (hash comparison would be vacuous)" % rt)
+                vac.append("direct routine %s: most reference results are not finite (hash comparison would be vacuous)" % rt)
         for key, d in per.items():
             if key[0] in ("eplscv", "sched") and d["nonfinite"] * 2 > d["blocks"]:
-                raise InfraError("%s: most reference results are not finite (hash comparison would be vacuous): %s" % (key, d))
+                vac.append("%s: most reference results are not finite (hash comparison would be vacuous): %s" % (key, d))
         if not any(k[0] == "eplscv" and d["read"] > 0 for k, d in per.items()):
-            raise InfraError("eplscv mode recorded no draws")
+            vac.append("eplscv mode recorded no draws")
+        # round 3 paths: every new mode must have produced complete blocks with results (and, where recorded, generator events)
+        for m0, need_reads in (("classes", False), ("hist", False), ("dsched", True), ("tsan", False)):
+            ds = [d for k, d in per.items() if k[0] == m0]
+            if not ds or sum(d["result"] for d in ds) == 0 or (need_reads and sum(d["read"] for d in ds) == 0):
+                vac.append("mode %s produced no recorded run (%s)" % (m0, ds))
+            if sum(d["nonfinite"] for d in ds) * 2 > sum(d["blocks"] for d in ds):
+                vac.append("mode %s: most reference results are not finite (hash comparison would be vacuous)" % m0)
+        for rt in ROUTINES:
+            if not q and not per.get(("dsched", rt)):
+                vac.append("dsched: routine %s was never run next to the disturber" % rt)
+        allev = [e for b in main_blocks for e in b]
+        if not any(e["e"] == "Create" for e in allev) or not any(e["e"] == "Called" for e in allev):
+            vac.append("no Create/Called events: hook H5 (libsci_verif_cv) is not firing in the bootstrap CV")
+        dist_forced = [e.get("forced", 0) for b in main_blocks if _run_info(b).get("dist") == 1 for e in b if e["e"] == "Result"]
+        if not dist_forced or max(dist_forced) == 0:
+            vac.append("no forced step in any disturber run (gate not in effect)")
+        hist_same = [e.get("addrsame", 0) for b in main_blocks if _run_info(b).get("mode", "").startswith("hist") for e in b if e["e"] == "Result"]
+        ctx.cov["history_runs"] = dict(results=len(hist_same), with_address_reuse=sum(1 for x in hist_same if x > 0))
+        # input / history classes (INPUT-CLASSES.md): measured per executed block - the tags the harness put on the case plus the ones read off the recorded run
+        for b in main_blocks + extra_blocks:
+            run_ = _run_info(b)
+            tags = set(run_.get("cls") or [])
+            n_, p_, ny_ = run_.get("n", 0), run_.get("p", 0), run_.get("ny", 0)
+            m0 = run_.get("mode", "").split(":")[0]
+            if m0 in ("sched", "counts", "classes", "hist", "yscr", "tsan", "eplscv") and n_ and p_:
+                tags.add("K1:tall" if n_ > p_ + 1 else "K1:wide" if n_ < p_ else "K1:n=p+-1")
+                tags.add("K1:ny>1" if ny_ > 1 else "K1:ny=1")
+            for e in b:
+                if e["e"] == "Result" and e.get("nth"):
+                    tags.add("K6:threads-%d" % e["nth"])
+                if e["e"] == "Result" and e.get("addrsame", 0) > 0:
+                    tags.add("K7:block-at-freed-address")
+                if e["e"] == "Result" and e.get("fresh") == 1:
+                    tags.add("K7:fresh-thread")
+            if m0 in ("direct", "counts", "classes", "eplscv", "yscr", "hist"):
+                tags.add("K7:repeated-call-in-process")
+            for t in sorted(tags):
+                ctx.cls(t)
         # forced re-seeds: sampled long words must reach a worker's second srand_ inside the forced window
         reseed_forced = 0
         alternating = 0
@@ -267,7 +424,7 @@ def run(ctx):
             word = tuple(run_.get("word", []))
             # non-trivial: some worker seeds between another worker's seed and that worker's first read
             nt = True
-            if run_.get("mode") == "sched":
+            if run_.get("mode") in ("sched", "dsched"):
                 first = {}
                 seeds = {}
                 for i, w in enumerate(word):
@@ -287,7 +444,8 @@ def run(ctx):
                     elif e["e"] in ("Wrote", "Read") and e["w"] >= 1:
                         steps[e["w"]] = steps.get(e["w"], 0) + 1
                 reseed_forced += 1 if hit else 0
-            ctx.case((run_.get("mode"), run_.get("algo"), run_.get("n"), run_.get("p"), run_.get("nlv"), word, run_.get("nw")), nt)
+            ctx.case((run_.get("mode"), run_.get("algo"), run_.get("n"), run_.get("p"), run_.get("nlv"), word, run_.get("nw"), run_.get("nproc"), run_.get("nth"), run_.get("dist"),
+                      tuple(run_.get("cls") or [])), nt)
             for e in b:
                 if e["e"] == "Result" and e.get("addrs"):
                     addr_classes.add(e["addrs"])
@@ -327,10 +485,23 @@ def run(ctx):
                 what += " [EPLS is outside the quantifier of C06 (PLS, MLR, LDA)]"
             ctx.extra(sig, what)
             return None
-        main_events = [e for b in main_blocks for e in b]
+        def is_tsan(b):
+            return _run_info(b).get("mode", "").startswith("tsan")
+        main_events = [e for b in main_blocks if not is_tsan(b) for e in b]
+        tsan_events = [e for b in main_blocks if is_tsan(b) for e in b]
         extra_events = [e for b in extra_blocks for e in b]
         trace.check_trace(ctx, "TraceRng", "Trace_Rng.cfg", "Trace_Rng_prop.cfg", main_events, on_reject, drop="block", max_rounds=60, label="trace_rng", xmx="8g")
+        # the ThreadSanitizer block on its own: a tree that fails the forced schedules must still have its races attributed
+        trace.check_trace(ctx, "TraceRng", "Trace_Rng.cfg", "Trace_Rng_prop.cfg", tsan_events, on_reject, drop="block", max_rounds=40, label="trace_rng_tsan", xmx="3g")
         ctx.traces(len(main_blocks))
+        # data races TLC accepted: on state the model does not speak about (RngState.tla OutsideModel) - reported, never a verdict
+        for b in tsan_blocks:
+            for e in b:
+                if e["e"] == "Race" and e.get("var") == "other" and e.get("name") != "racy_cell":
+                    run_ = _run_info(b)
+                    ctx.extra("RACE:other:%s:%s:%s" % (e.get("name") or e.get("loc"), e.get("f1"), e.get("f2")),
+                              "ThreadSanitizer reports a %s outside the state of the C06 model (%s '%s', accesses in %s and %s) while running %s %s with %s threads, %s processors"
+                              % (e.get("kind"), e.get("loc"), e.get("name"), e.get("f1"), e.get("f2"), run_.get("mode"), run_.get("algo"), run_.get("nth"), run_.get("nproc")))
         if extra_blocks:
             # blocks outside the statement are EXPECTED to contain rejections (one TLC round each): validate the groups side by side, then merge in order
             groups = {}
@@ -377,6 +548,8 @@ def run(ctx):
                         on_reject_extra(c[1], 0, c[2])
             ctx.traces(len(extra_blocks))
 
+        if vac and not ctx.violations:
+            raise InfraError("; ".join(vac[:4]))
         if reseed_forced == 0 and not ctx.violations:
             # (with a violation on record the run fails anyway: a change that removed the re-seed is then a verdict, not an infrastructure problem)
             raise InfraError("no forced schedule reached a worker's re-seed inside the forced window (EPLS learner): the reseed shape is not exercised on the code")
@@ -409,9 +582,69 @@ def run(ctx):
         trace.binding_selftest(ctx, "TraceRng", "Trace_Rng_prop.cfg", b_clk, corrupt_field("Run", "ts", 0), "binding_clock")
         if not any(e["e"] == "Clear" for e in b_dir):
             raise InfraError("no Clear event in a direct block")
+        # round 3 event kinds and fields
+        b_race = first_block(lambda r, b: r.get("mode") == "tsan:selftest" and any(e["e"] == "Race" for e in b))
+        trace.binding_selftest(ctx, "TraceRng", "Trace_Rng_prop.cfg", b_race, corrupt_field("Race", "var", "XOR128_SEED"), "binding_race_private_state")
+        trace.binding_selftest(ctx, "TraceRng", "Trace_Rng_prop.cfg", b_race, corrupt_field("Race", "var", "worker-slot"), "binding_race_worker_slot")
+        b_cls = first_block(lambda r, b: r.get("mode") == "classes:boot" and any(e["e"] == "Create" for e in b) and sum(1 for e in b if e["e"] == "Result") >= 2)
+        trace.binding_selftest(ctx, "TraceRng", "Trace_Rng_prop.cfg", b_cls, corrupt_field("Result", "libc", 1), "binding_libc_generator")
+
+        def corrupt_rounding(evs):       # another thread count, result off by more than rounding
+            for e in evs:
+                if e["e"] == "Result" and e.get("nth", 1) != 1:
+                    e["h"] = [1, 2, 3]
+                    e["dq"] = 5000
+                    return True
+            return False
+        trace.binding_selftest(ctx, "TraceRng", "Trace_Rng_prop.cfg", b_cls, corrupt_rounding, "binding_rounding_bound")
+
+        def corrupt_repeat(evs):         # the second run with one thread count differs from the first although both are within rounding of the reference
+            for e in evs:
+                if e["e"] == "Result" and e.get("rep", 0) >= 1 and e.get("nth", 1) != 1:
+                    e["h"] = [1, 2, 3]
+                    e["dq"] = 0
+                    return True
+            return False
+        trace.binding_selftest(ctx, "TraceRng", "Trace_Rng_prop.cfg", b_cls, corrupt_repeat, "binding_repeated_run")
+
+        def rounding_only(evs):          # control of the tolerance clause itself: off by rounding with another thread count is accepted by the property layer, not by the implementation layer
+            for e in evs:
+                if e["e"] == "Result" and e.get("nth", 1) != 1:
+                    e["h"] = [1, 2, 3]
+                    e["dq"] = 1
+            return True
+        import copy
+        evr = copy.deepcopy(b_cls)
+        rounding_only(evr)
+        okp, n_, r_ = tlc.validate_trace("TraceRng", "Trace_Rng_prop.cfg", evr)
+        oki, n_, r_ = tlc.validate_trace("TraceRng", "Trace_Rng.cfg", evr)
+        if not okp or oki:
+            raise InfraError("rounding clause of TResult: a result equal to rounding across thread counts must pass the property layer (%s) and fail the implementation layer (%s)" % (okp, not oki))
+        ctx.steps["control_rounding_clause"] = dict(prop_accepts=okp, impl_rejects=not oki)
+
+        def corrupt_create(evs):
+            for e in evs:
+                if e["e"] == "Create" and e["th"] == 0 and e["it"] > 0:
+                    e["seed"] += 1
+                    return True
+            return False
+        trace.binding_selftest(ctx, "TraceRng", "Trace_Rng.cfg", b_cls, corrupt_create, "binding_create_seed_formula")
+
+        def drop_create(evs):
+            for i, e in enumerate(evs):
+                if e["e"] == "Create":
+                    del evs[i]
+                    return True
+            return False
+        trace.binding_selftest(ctx, "TraceRng", "Trace_Rng.cfg", b_cls, drop_create, "binding_called_seed_set")
+        b_hist = first_block(lambda r, b: r.get("mode", "").startswith("hist") and any(e["e"] == "Result" for e in b))
+        trace.binding_selftest(ctx, "TraceRng", "Trace_Rng_prop.cfg", b_hist, corrupt_field("Result", "h", [3, 2, 1], nth=1), "binding_history_result")
+        b_ds = first_block(lambda r, b: r.get("mode") == "dsched" and sum(1 for e in b if e["e"] == "Read") >= 2)
+        trace.binding_selftest(ctx, "TraceRng", "Trace_Rng_prop.cfg", b_ds, corrupt_field("Read", "v", [4, 4321], nth=1), "binding_disturbed_read")
     finally:
         pool.shutdown(wait=False)
         shutil.rmtree(rd, ignore_errors=True)
+        shutil.rmtree(tsan_rd, ignore_errors=True)
 
 
 def replay(ctx, body):
